@@ -29,6 +29,7 @@ type gen struct {
 	exotic     bool // special characters in names
 	spellP     float64
 	bodyFaultP float64 // share of PUTs whose body stream breaks
+	noEscape   bool    // never spell a path with more dot-dot segments than it has (tasks confined to a subtree)
 }
 
 var plainNames = []string{"a", "b", "c", "d"}
@@ -122,8 +123,12 @@ func newGen(seed uint64, tier, property, profile string) *gen {
 	if g.r.Chance(0.3) {
 		g.plan.Config.RootForm = rt.Pick(g.r, []string{"slash", "dot", "double"})
 	}
+	if g.r.Chance(0.5) {
+		g.plan.Config.ZoneOffsetS = rt.Pick(g.r, []int{5*3600 + 1800, -8 * 3600, 3600, 14 * 3600, -3600 * 11})
+	}
+	g.plan.Config.Neighbour = g.r.Chance(0.25)
 	g.maxSize = 64
-	if g.r.Chance(0.2) {
+	if g.r.Chance(0.35) {
 		g.maxSize = 5000
 	}
 	if tier == "thorough" && g.r.Chance(0.1) {
@@ -280,7 +285,7 @@ func (g *gen) spell(p string) string {
 	}
 	segs := strings.Split(strings.TrimPrefix(p, "/"), "/")
 	var b strings.Builder
-	if vary && g.r.Chance(0.06) {
+	if vary && !g.noEscape && g.r.Chance(0.06) {
 		// more dot-dot segments than there is path: clamped at the root (RFC 3986
 		// 5.2.4); a server may also refuse it
 		b.WriteString(rt.Pick(g.r, []string{"/..", "/../..", "/zz/../.."}))
@@ -334,6 +339,24 @@ func (g *gen) content() []byte {
 		} else {
 			b[i] = "abcdefghijklmnopqrstuvwxyz\n"[(i*7+g.seq)%27]
 		}
+	}
+	// content is not always text: runs of NUL bytes (sparse files, padded
+	// archives), arbitrary binary
+	switch g.r.Weighted([]int{80, 5, 5, 5, 5}) {
+	case 1: // all zeros
+		for i := range b {
+			b[i] = 0
+		}
+	case 2: // trailing zeros
+		for i := len(b) - 1 - g.r.Intn(len(b)); i >= 0 && i < len(b); i++ {
+			b[i] = 0
+		}
+	case 3: // leading zeros
+		for i := 0; i < 1+g.r.Intn(len(b)); i++ {
+			b[i] = 0
+		}
+	case 4:
+		copy(b, g.r.Bytes(len(b)))
 	}
 	return b
 }
@@ -676,7 +699,12 @@ func (g *gen) genSetup() {
 		} else {
 			p := g.pickPath("missing")
 			d := g.content()
-			g.plan.Setup = append(g.plan.Setup, SetupOp{Put: p, Data: d})
+			op := SetupOp{Put: p, Data: d}
+			if g.r.Chance(0.15) {
+				// files that were not written "now": restored backups, clock trouble
+				op.MTime = rt.Pick(g.r, []string{"epoch", "ancient", "future", "odd-ns"})
+			}
+			g.plan.Setup = append(g.plan.Setup, op)
 			g.j.T.PutFile(p, d)
 		}
 	}
